@@ -161,59 +161,67 @@ def concurrent_runs(ctx):
 
 def gated_literal_arguments(ctx):
     """a call takes k literals that are all gated on ONE producer x (add_dependency(x, literal)) and also depends on a slow call y:
-    it starts only after both x and y have finished - however many paths lead from x to it"""
+    it starts only after both x and y have finished - however many paths lead from x to it, whether the literals are passed directly or
+    inside a list / dict / tuple argument, and whether the gate is wired before or AFTER the literal was used"""
     import threading
     import time
     uj = core.use_repo()
-    for k in (1, 2, 3):
-        for workers in (1, 2, 4):
-            for scheduler in (None, "random"):
-                for y_form in ("argument", "dependency", "gated-literal"):
-                    lock, ev = threading.Lock(), []
+    combos = [(k, workers, scheduler, y_form, container, wired)
+              for k in (1, 2, 3) for workers in (1, 2, 4) for scheduler in (None, "random") for y_form in ("argument", "dependency", "gated-literal")
+              for container in (None, "list", "dict", "tuple") for wired in ("before", "after")]
+    if ctx.quick:
+        combos = [c for c in combos if c[4] is None and c[5] == "before"] + ctx.rng.sample([c for c in combos if not (c[4] is None and c[5] == "before")], 60) \
+            + [(1, 1, None, "argument", "list", "after"), (2, 2, "random", "dependency", "dict", "after")]
+    for k, workers, scheduler, y_form, container, wired in combos:
+        lock, ev = threading.Lock(), []
 
-                    def mk(nm, dur):
-                        def f(*a, **kw):
-                            with lock:
-                                ev.append(("start", nm))
-                            time.sleep(dur)
-                            with lock:
-                                ev.append(("end", nm))
-                            return nm
-                        f.__name__ = nm
-                        return f
-                    plan = uj.Plan()
-                    x = plan.call(mk("x", 0.0))
-                    y = plan.call(mk("y", 0.12))
-                    lits = []
-                    for i in range(k):
-                        li = plan.lit("gate-%d" % i)
-                        plan.add_dependency(x, li)
-                        lits.append(li)
-                    extra = []
-                    if y_form == "argument":
-                        extra = [y]
-                    t = plan.call(mk("t", 0.0), *lits[:1], *extra, **{"g%d" % i: li for i, li in enumerate(lits[1:])})
-                    if y_form == "dependency":
-                        plan.add_dependency(y, t)
-                    elif y_form == "gated-literal":
-                        ly = plan.lit("gate-y")
-                        plan.add_dependency(y, ly)
-                        plan.add_dependency(ly, t)
-                    ctx.case(("gated-literal-arguments", k, workers, scheduler, y_form))
-                    try:
-                        res = core.call_watched(lambda: uj.run(plan, output=t, max_workers=workers, scheduler=scheduler, progress=None), timeout=30)
-                    except BaseException as e:      # noqa
-                        res = "raised %s: %s" % (type(e).__name__, e)
-                    done = set()
-                    bad = None
-                    for kind, nm in ev:
-                        if kind == "end":
-                            done.add(nm)
-                        elif nm == "t" and not {"x", "y"} <= done:
-                            bad = sorted({"x", "y"} - done)
-                    if res != "t" or bad:
-                        ctx.fail("gated-literals:start-before-dependency", "a call taking %d literal(s) gated on x and depending on the slow call y (%s): run gave %r; the call started before %r had finished"
-                                 % (k, y_form, res, bad), {"gated_literals": k, "max_workers": workers, "scheduler": scheduler, "y_is": y_form, "events": ev})
+        def mk(nm, dur):
+            def f(*a, **kw):
+                with lock:
+                    ev.append(("start", nm))
+                time.sleep(dur)
+                with lock:
+                    ev.append(("end", nm))
+                return nm
+            f.__name__ = nm
+            return f
+        plan = uj.Plan()
+        x = plan.call(mk("x", 0.02 if wired == "after" else 0.0))
+        y = plan.call(mk("y", 0.08))
+        lits = [plan.lit("gate-%d" % i) for i in range(k)]
+        if wired == "before":
+            for li in lits:
+                plan.add_dependency(x, li)
+
+        def wrap(li):
+            return li if container is None else [li, 0] if container == "list" else {"k": li} if container == "dict" else (0, li)
+        extra = [y] if y_form == "argument" else []
+        t = plan.call(mk("t", 0.0), *[wrap(li) for li in lits[:1]], *extra, **{"g%d" % i: wrap(li) for i, li in enumerate(lits[1:])})
+        if wired == "after":
+            for li in lits:
+                plan.add_dependency(x, li)
+        if y_form == "dependency":
+            plan.add_dependency(y, t)
+        elif y_form == "gated-literal":
+            ly = plan.lit("gate-y")
+            plan.add_dependency(y, ly)
+            plan.add_dependency(ly, t)
+        ctx.case(("gated-literal-arguments", k, workers, scheduler, y_form, container, wired))
+        try:
+            res = core.call_watched(lambda: uj.run(plan, output=t, max_workers=workers, scheduler=scheduler, progress=None), timeout=30)
+        except BaseException as e:      # noqa
+            res = "raised %s: %s" % (type(e).__name__, e)
+        done = set()
+        bad = None
+        for kind, nm in ev:
+            if kind == "end":
+                done.add(nm)
+            elif nm == "t" and not {"x", "y"} <= done:
+                bad = sorted({"x", "y"} - done)
+        if res != "t" or bad:
+            ctx.fail("gated-literals:start-before-dependency", "a call taking %d literal(s) gated on x (%s; the gate wired %s the literal was used) and depending on the slow call y (%s): "
+                     "run gave %r; the call started before %r had finished" % (k, "passed directly" if container is None else "inside a %s argument" % container, wired, y_form, res, bad),
+                     {"gated_literals": k, "max_workers": workers, "scheduler": scheduler, "y_is": y_form, "container": container, "gate_wired": wired, "events": ev})
 
 
 def forgotten_registry(ctx):
